@@ -1,4 +1,4 @@
-import SlugModel.Lemmas.TransEq
+import SlugModel.Lemmas.TrEq_splitSubPath
 import SlugModel.Lemmas.Local
 /-!
 # C19 (tie by translation; the slices of `splitSubPath` are in range)
